@@ -10,6 +10,7 @@ import QModel.Calib
 import QModel.Validate
 import QModel.Serialize
 import QModel.Eval
+import QModel.NFCheck
 open Lean Num Nd Arith Cfg Graph Mat
 
 /-! JSON-lines driver: one request per line on stdin, one response per line on stdout. -/
@@ -499,6 +500,8 @@ def handle (j : Json) : Except String Json := do
         | .ok (m', tbl) => Json.mkObj [("ok", modelToJson m'), ("params", Json.arr (tbl.map paramToJson).toArray),
                                         ("wf", Json.bool (WF.modelOK m')),
                                         ("skeleton", Json.bool (Skeleton.sameModelSkeleton env.model m')),
+                                        -- the hypothesis NF of the end-to-end theorems (C01.quantize_wf, C02.quantize_skeleton), field by field
+                                        ("nf", Json.mkObj ((NFCheck.report env st).map fun p => (p.1, Json.bool p.2))),
                                         -- hypotheses of the C06 evaluation theorems, per subgraph of the model's output
                                         ("c06_shape", Json.arr (m'.subgraphs.map fun sg => Json.mkObj [
                                             ("ins", toJson (Eval.insOps sg).length),
